@@ -20,7 +20,8 @@ RULE = ("rule blocks of 1-8 rules `if in_i is x then ...` over Ramp(0,1) inputs 
         "RuleBlock.activate of real engines; 7 methods x n in -1..rules+1 x thresholds on/off the degrees x 6 comparators; degree "
         "vectors over {0, 1/4, 1/2, 3/4} exhaustively for <= 4 rules (quick) / <= 6 (thorough: pool of 3) plus random blocks of "
         "5-8 rules with ties, zeros, NaN; random enabled flags, four loaded states (loaded, antecedent / consequent / both "
-        "unloaded), arbitrary stale rule state before the call; vector inputs for the rejection clause.  Observed: triggered and "
+        "unloaded), arbitrary stale rule state before the call, and two-pass runs (activate, unload / disable rules, new inputs, activate "
+        "again on the same engine); vector inputs for the rejection clause.  Observed: triggered and "
         "activation_degree of every rule, (term, degree) list of every output.  non-trivial: at least one rule triggered and at "
         "least one eligible rule not triggered, or an error; distinct = distinct (method, flags, degrees)")
 ASSUMPTIONS = ["degrees are exact floats (weights are powers of two), so the model sees the same numbers as the implementation",
@@ -82,7 +83,7 @@ def method_obj(m):
     return fl.Threshold(m[1], m[2])
 
 
-def apply_case(e, case):
+def apply_case(e, case, keep_state=False):
     rb = e.rule_blocks[0]
     rb.activation = method_obj(case["method"])
     for o in e.output_variables:
@@ -99,16 +100,29 @@ def apply_case(e, case):
             rule.consequent.load(e)
         if not want_c and rule.consequent.is_loaded():
             rule.consequent.unload()
-        rule.activation_degree = fl.scalar(rc["prior_degree"])
-        rule.triggered = fl.array(rc["prior_triggered"])
+        if not keep_state:
+            rule.activation_degree = fl.scalar(rc["prior_degree"])
+            rule.triggered = fl.array(rc["prior_triggered"])
         v = case["values"][i]
         e.input_variables[i].value = np.array(v, dtype=float) if isinstance(v, list) else float(v)
 
 
 def observe(case, e=None):
-    if e is None:
+    if case.get("before"):
+        # second pass: a fresh engine runs the first activation, then flags / loaded states / inputs change and the rules keep
+        # whatever state the first pass left in them
         e = build(len(case["rules"]))
-    apply_case(e, case)
+        apply_case(e, case["before"])
+        with np.errstate(all="ignore"):
+            try:
+                e.rule_blocks[0].activate()
+            except Exception:  # noqa: BLE001
+                pass
+        apply_case(e, case, keep_state=True)
+    else:
+        if e is None:
+            e = build(len(case["rules"]))
+        apply_case(e, case)
     rb = e.rule_blocks[0]
     with np.errstate(all="ignore"):
         try:
@@ -283,7 +297,7 @@ def gen_cases(ctx):
     rng = ctx.rng
     pool = [0.0, 0.25, 0.5, 0.75]
     thr = [0.0, 0.25, 0.3, 0.5]
-    max_ex = ctx.scale(4, 5)
+    max_ex = ctx.scale(4, 6)
     for n in range(1, max_ex + 1):
         ms = methods_for(n, thr, full=n <= 3)
         for vals in itertools.product(pool if n <= 4 else pool[:3], repeat=n):
@@ -298,6 +312,23 @@ def gen_cases(ctx):
                         ["First", rng.randrange(-1, n + 2), t], ["Last", rng.randrange(-1, n + 2), t],
                         ["Threshold", rng.choice(COMPARATORS), t], ["Threshold", rng.choice(COMPARATORS), t]])
         yield {"method": m, "rules": flags(rng, n), "values": vals}, "random-large"
+    # two passes on one engine: activate, then unload / disable some rules, change the inputs and the method, activate again;
+    # the rules carry the state of the first pass into the second (the case records it from the definition)
+    for _ in range(ctx.scale(1500, 20000)):
+        n = rng.choice([1, 2, 3, 4, 6])
+        first = {"method": rng.choice([["General"], ["General"], ["Proportional"], ["Highest", n], ["First", n, 0.0],
+                                       ["Threshold", ">=", 0.0]]),
+                 "rules": flags(rng, n, plain=True), "values": [rng.choice(big[:-1]) for _ in range(n)]}
+        after = spec(first)["rules"]
+        rules2 = []
+        for i in range(n):
+            rules2.append({"enabled": rng.random() < 0.7, "loaded": "full" if rng.random() < 0.5 else rng.choice(LOADED[1:]),
+                           "prior_degree": after[i][1], "prior_triggered": after[i][0]})
+        vals2 = [rng.choice(big[:-1]) for _ in range(n)]
+        m2 = rng.choice([["General"], ["General"], ["Proportional"], ["Highest", rng.randrange(0, n + 1)],
+                         ["Lowest", rng.randrange(0, n + 1)], ["First", rng.randrange(0, n + 1), rng.choice(thr)],
+                         ["Last", rng.randrange(0, n + 1), rng.choice(thr)], ["Threshold", rng.choice(COMPARATORS), rng.choice(thr)]])
+        yield {"method": m2, "rules": rules2, "values": vals2, "before": first}, "second-pass"
     # batches: the vector-incapable methods must reject, General works row by row
     for _ in range(ctx.scale(300, 3000)):
         n = rng.choice([1, 2, 3, 5])
@@ -412,7 +443,7 @@ def correspond(ctx):
         st.validated += 1
         if bad:
             mism.append({"case": case, "impl": ob, "model": [o for _, o in models[ci]], "what": bad})
-        if ci % ctx.scale(3, 3) == 0 or kind in ("corpus", "vector") or bad:
+        if ci % ctx.scale(3, 3) == 0 or kind in ("corpus", "vector", "second-pass") or bad:
             ok, detail = oracle(case)
             st.count("oracle")
             if not ok:
